@@ -87,6 +87,29 @@ class Recorder(IState):
         self._rec("Disc", event)
 
 
+class PriceFeature(Feature):
+    """A feature with history: the last mid price of a contract (parse is implemented, so
+    every observation is saved into Feature.history keyed by time)."""
+
+    def __init__(self, contract=None, log=None, envbox=None):
+        super().__init__(name="PriceFeature")
+        self.contract = contract
+        self.log = log if log is not None else []
+        self.envbox = envbox if envbox is not None else []
+        self.last = 0.0
+
+    def process_EventNBBO(self, event):
+        if event.contract == self.contract:
+            self.last = (event.bid_price + event.ask_price) / 2
+        env = self.envbox[0] if self.envbox else None
+        self.log.append({"kind": "NBBO", "event": event, "time": event.time, "now": env.now() if env else None,
+                         "nreb": len(env.broker.track_record) if env and env.broker else None,
+                         "tag": getattr(event, "_tag", None)})
+
+    def parse(self):
+        return self.last
+
+
 def t_eq(a, b):
     """Equality of two (possibly symbolic) timestamps as a SymBool / bool."""
     return a == b
@@ -100,17 +123,47 @@ def t_lt(a, b):
     return a < b
 
 
+class Inputs:
+    """The symbolic inputs of an episode, created on first use and memoised by name so that a
+    second, identically configured environment can be built from the *same* inputs."""
+
+    def __init__(self, c, prefix=""):
+        self.c = c
+        self.prefix = prefix
+        self.memo = {}
+
+    def _get(self, name, make):
+        if name not in self.memo:
+            self.memo[name] = make(self.prefix + name)
+        return self.memo[name]
+
+    def time(self, name, lo=LO_DEFAULT, hi=HI_DEFAULT):
+        return self._get(name, lambda n: sym_time(self.c, n, lo=lo, hi=hi))
+
+    def real(self, name, lo, hi):
+        return self._get(name, lambda n: self.c.real(n, lo, hi))
+
+    def latency(self, name):
+        return self._get(name, lambda n: sym_latency(self.c, n))
+
+    def seconds(self, name, lo_us, hi_us):
+        return self._get(name, lambda n: sym_seconds(self.c, n, lo_us=lo_us, hi_us=hi_us))
+
+
 class Episode:
     """Everything a family-E harness needs."""
 
-    def __init__(self, c, cfg):
+    def __init__(self, c, cfg, prefix="", inputs=None):
         self.c = c
         self.cfg = cfg
+        inp = self.inp = inputs if inputs is not None else Inputs(c, prefix)
         N = cfg.get("N", 3)
         M = cfg.get("M", 1)
         self.N, self.M = N, M
         # ---- grid
-        self.T = [sym_time(c, "T%d" % i) for i in range(N)]
+        t_lo = cfg.get("t_lo") and datetime(*cfg["t_lo"]) or LO_DEFAULT
+        t_hi = cfg.get("t_hi") and datetime(*cfg["t_hi"]) or HI_DEFAULT
+        self.T = [inp.time("T%d" % i, t_lo, t_hi) for i in range(N)]
         for i in range(N - 1):
             c.assume(self.T[i] < self.T[i + 1])
         # ---- latency
@@ -118,7 +171,7 @@ class Episode:
         if lat == "zero":
             self.L = 0
         elif lat == "sym":
-            self.L = sym_latency(c, "L")
+            self.L = inp.latency("L")
             for i in range(N - 1):
                 c.assume(self.L < (self.T[i + 1] - self.T[i]).total_seconds())
         else:
@@ -126,11 +179,27 @@ class Episode:
             for i in range(N - 1):
                 c.assume(self.L < (self.T[i + 1] - self.T[i]).total_seconds())
         # ---- contracts
-        self.X = ETF("X")
-        self.contracts = [self.X]
-        if cfg.get("two_contracts"):
-            self.Y = ETF("Y")
-            self.contracts.append(self.Y)
+        kind = cfg.get("contract", "etf")
+        self.chain = None
+        if kind == "etf":
+            self.X = ETF("X")
+            self.contracts = [self.X]
+            if cfg.get("two_contracts"):
+                self.Y = ETF("Y")
+                self.contracts.append(self.Y)
+            self.traded = list(self.contracts)
+        elif kind == "future":
+            from tradingenv.contracts import ES
+            self.X = ES(2030, 6)
+            self.contracts = [self.X]
+            self.traded = [self.X]
+        else:   # a chain of two futures; quotes exist for both underlying contracts
+            from tradingenv.contracts import ES, FutureChain
+            self.F1, self.F2 = ES(2030, 3), ES(2030, 6)
+            self.chain = FutureChain(contracts=[self.F1, self.F2])
+            self.X = self.F1
+            self.contracts = [self.F1, self.F2]
+            self.traded = [self.chain]
         # ---- events
         self.bars = []          # bars[i][k]
         self.market = []        # every market event in insertion order (dicts)
@@ -139,8 +208,8 @@ class Episode:
             row = []
             for k, con in enumerate(self.contracts):
                 if sym_prices:
-                    bid = c.real("bid_%d_%d" % (i, k), 1e-3, 1e6)
-                    ask = c.real("ask_%d_%d" % (i, k), 1e-3, 1e6)
+                    bid = inp.real("bid_%d_%d" % (i, k), 1e-3, 1e6)
+                    ask = inp.real("ask_%d_%d" % (i, k), 1e-3, 1e6)
                     c.assume(bid <= ask)
                 else:
                     mid = 100.0 + 10 * i + 50 * k
@@ -153,11 +222,11 @@ class Episode:
         self.free = []
         kinds = cfg.get("free_kinds") or ["quote"] * M
         for j in range(M):
-            t = sym_time(c, "E%d" % j)
+            t = inp.time("E%d" % j, t_lo, t_hi)
             if kinds[j] == "quote":
                 if sym_prices:
-                    bid = c.real("fbid_%d" % j, 1e-3, 1e6)
-                    ask = c.real("fask_%d" % j, 1e-3, 1e6)
+                    bid = inp.real("fbid_%d" % j, 1e-3, 1e6)
+                    ask = inp.real("fask_%d" % j, 1e-3, 1e6)
                     c.assume(bid <= ask)
                 else:
                     mid = 200.0 + 7 * j
@@ -165,7 +234,7 @@ class Episode:
                     bid, ask = mid - spread / 2, mid + spread / 2
                 ev = EventNBBO(t, self.X, bid, ask)
             else:
-                payload = c.real("pay_%d" % j, -1e6, 1e6) if cfg.get("sym_payload") else 1000.0 + j
+                payload = inp.real("pay_%d" % j, -1e6, 1e6) if cfg.get("sym_payload") else 1000.0 + j
                 ev = Ping(t, payload)
             ev._tag = "free%d" % j
             self.free.append(ev)
@@ -183,16 +252,16 @@ class Episode:
         fold = cfg.get("fold")
         self.S = self.Eend = None
         if fold == "sym":
-            self.S = sym_time(c, "S", lo=datetime(1999, 1, 1), hi=datetime(2101, 1, 1))
-            self.Eend = sym_time(c, "Eend", lo=datetime(1999, 1, 1), hi=datetime(2101, 1, 1))
+            self.S = inp.time("S", datetime(1999, 1, 1), datetime(2101, 1, 1))
+            self.Eend = inp.time("Eend", datetime(1999, 1, 1), datetime(2101, 1, 1))
             c.assume(self.S <= self.Eend)
             folds = {"training-set": [self.S, self.Eend]}
         elif fold == "two":
-            self.S = sym_time(c, "S", lo=datetime(1999, 1, 1), hi=datetime(2101, 1, 1))
-            self.Eend = sym_time(c, "Eend", lo=datetime(1999, 1, 1), hi=datetime(2101, 1, 1))
+            self.S = inp.time("S", datetime(1999, 1, 1), datetime(2101, 1, 1))
+            self.Eend = inp.time("Eend", datetime(1999, 1, 1), datetime(2101, 1, 1))
             c.assume(self.S <= self.Eend)
-            S2 = sym_time(c, "S2", lo=datetime(1999, 1, 1), hi=datetime(2101, 1, 1))
-            E2 = sym_time(c, "E2", lo=datetime(1999, 1, 1), hi=datetime(2101, 1, 1))
+            S2 = inp.time("S2", datetime(1999, 1, 1), datetime(2101, 1, 1))
+            E2 = inp.time("E2", datetime(1999, 1, 1), datetime(2101, 1, 1))
             c.assume(S2 <= E2)
             c.assume(self.S <= S2)      # PartitionTimeRanges sorts folds by (start, end)
             folds = {"training-set": [S2, E2], "test-set": [self.S, self.Eend]}
@@ -200,7 +269,7 @@ class Episode:
         self.markov = bool(cfg.get("markov", False))
         self.warmup = None
         if cfg.get("warmup") == "sym":
-            self.warmup = sym_seconds(c, "W", lo_us=1, hi_us=400 * 86400 * US)
+            self.warmup = inp.seconds("W", 1, 400 * 86400 * US)
         grid_in = list(self.T)
         perm = cfg.get("grid_perm")
         if perm:
@@ -213,7 +282,7 @@ class Episode:
         self.envbox = []
         self.recorder = Recorder(self.log, self.envbox)
         space = cfg.get("space", "box")
-        self.space_contracts = ([Cash()] if cfg.get("cash_in_space") else []) + list(self.contracts)
+        self.space_contracts = ([Cash()] if cfg.get("cash_in_space") else []) + list(self.traded)
         if space == "box":
             self.space = BoxPortfolio(self.space_contracts, low=cfg.get("low", -1.0), high=cfg.get("high", 2.0),
                                       as_weights=cfg.get("as_weights", True))
@@ -226,10 +295,16 @@ class Episode:
             kw["reward"] = cfg["reward"]
         if cfg.get("fees"):
             kw["broker_fees"] = BrokerFees(proportional=0.001, fixed=0.01)
+        if cfg.get("feature"):
+            self.recorder = IState([PriceFeature(self.contracts[0], self.log, self.envbox)], save=False)
         self.env = TradingEnv(action_space=self.space, state=self.recorder, transmitter=self.transmitter,
                               latency=self.L, steps_delay=cfg.get("delay", 0),
                               episode_length=cfg.get("episode_length"), **kw)
         self.envbox.append(self.env)
+
+    def clone(self):
+        """A freshly built, identically configured environment over the same inputs."""
+        return Episode(self.c, self.cfg, inputs=self.inp)
 
     # ------------------------------------------------------------------ helpers
     def action(self, k):
